@@ -138,7 +138,12 @@ pub fn gen_knobs(t: &mut Tape, faults: &[&str], layout: &Layout) -> SimKnobs {
     // swarm: each fault kind is enabled for a run with probability 1/3, at a drawn rate
     for f in faults {
         if t.draw(3) == 2 {
-            let rate = [5, 30, 150, 500][t.draw(4) as usize];
+            let mut rate = [5, 30, 150, 500][t.draw(4) as usize];
+            // a peer that refuses or times out 32 connection attempts in a row is a dead host,
+            // which renoir does not promise to survive: keep start-up faults transient
+            if f.starts_with("connect_") {
+                rate = rate.min(150);
+            }
             k.rates.insert(f.to_string(), rate);
         }
     }
@@ -356,10 +361,10 @@ impl<'t> Gen<'t> {
     }
 
     pub fn gen_repl(&mut self, i: usize) -> UnOp {
-        // forward links to fewer (>1) consumers lose data (known finding): only draw replication
-        // changes whose consumer has one replica or as many as the producer unless asked otherwise
+        // A forward link needs a producer for every consumer replica: a consumer replica whose
+        // (host, index) has no producer makes the job panic at start-up ("Channel for endpoint
+        // ... not registered", see DESIGN.md) - only the graph family draws such shapes.
         let from = self.attrs[i].as_ref().unwrap().repl;
-        let from_n = from.count(&self.layout);
         let cand = [
             Repl::One,
             Repl::Unlimited,
@@ -367,16 +372,11 @@ impl<'t> Gen<'t> {
             Repl::Host,
         ];
         let r = cand[self.t.draw(4) as usize];
-        let eff = from.intersect(r);
-        let n = eff.count(&self.layout);
-        let host_shape_ok = match (&self.layout, eff) {
-            // Host replication only lines up with the producer when every host has one core
-            (Layout::Remote(c), Repl::Host) => c.iter().all(|x| *x == 1) || from_n == 1,
-            (Layout::Remote(_), Repl::Limited(_)) => n == from_n || n == 1,
-            _ => true,
-        };
-        if self.p.allow_known_defects || ((n == 1 || n == from_n) && host_shape_ok) {
-            UnOp::Repl(eff)
+        let ps = from.shape(&self.layout);
+        let cs = r.shape(&self.layout);
+        let fed = cs.len() == 1 || cs.is_subset(&ps);
+        if fed || (self.p.allow_known_defects && self.t.draw(8) == 7) {
+            UnOp::Repl(r)
         } else {
             UnOp::Repl(Repl::One)
         }
@@ -650,6 +650,8 @@ impl<'t> Gen<'t> {
             steps: self.steps,
             knobs,
             crash: None,
+            range_cases: vec![],
+            client_grace_us: 0,
         }
     }
 }
